@@ -459,7 +459,6 @@ func originUnwritten(f *ir.Func, e ast.Expr, at *cfgx.Node) ast.Expr {
 	return defs[0].RHS
 }
 
-
 // calleesThrough: the functions a call can invoke when it goes through a local
 // function variable: every definition of the variable is the name of a
 // declared function (`f := a; if c { f = b }; f(x)`). Empty when the callee is
@@ -488,4 +487,55 @@ func calleesThrough(f *ir.Func, call *ast.CallExpr) []*types.Func {
 		out = append(out, fn)
 	}
 	return out
+}
+
+// originAt follows e, while it is a plain local, to the right-hand side of the one definition of that local that
+// reaches node at (other definitions — a zero value on a failure path that returns — do not matter), provided
+// nothing that right-hand side reads is written on the way from the definition to at. At most six steps.
+func originAt(f *ir.Func, e ast.Expr, at *cfgx.Node) ast.Expr {
+	g := f.Graph()
+	for i := 0; i < 6 && at != nil; i++ {
+		id, ok := ast.Unparen(e).(*ast.Ident)
+		if !ok {
+			return e
+		}
+		obj, ok := f.ObjOf(id).(*types.Var)
+		if !ok || obj.IsField() {
+			return e
+		}
+		defs := ReachingDefs(f, obj, at)
+		if len(defs) != 1 || defs[0] == nil || defs[0].AST == nil {
+			return e
+		}
+		var rhs ast.Expr
+		for _, w := range f.WritesIn(defs[0].AST, false) {
+			if f.ObjOf(w.LHS) == types.Object(obj) && w.RHS != nil {
+				rhs = w.RHS
+			}
+		}
+		if rhs == nil {
+			return e
+		}
+		read := map[types.Object]bool{}
+		ast.Inspect(rhs, func(n ast.Node) bool {
+			if x, ok := n.(*ast.Ident); ok {
+				if o, ok := f.ObjOf(x).(*types.Var); ok && !o.IsField() {
+					read[o] = true
+				}
+			}
+			return true
+		})
+		for n := range pathNodesBetween(g, defs[0], at) {
+			if n.AST == nil || n == defs[0] {
+				continue
+			}
+			for _, w := range f.WritesIn(n.AST, false) {
+				if read[f.ObjOf(rootOfLvalue(w.LHS))] {
+					return e
+				}
+			}
+		}
+		e, at = rhs, defs[0]
+	}
+	return e
 }
